@@ -48,6 +48,10 @@ def check(ctx):
     ctx.attempt(_inc, 'RX-LANG', 'through_regex', F.THROUGH, thr, 'through words (any case)')
     ctx.attempt(emitted_trs_accepted)
     ctx.attempt(_deduce_on_preprocessed)
+    ctx.attempt(_in_between)
+    from .c05 import _range_algebra           # 'Sections 9 - 12' must expand for the round trip to hold
+    for spec_, kind_ in (('SecUnpacker.unpack_sections', 'sec'),):
+        ctx.attempt(_range_algebra, ctx.repo.func(spec_), kind_)
     nn = ctx.fold.get('rgxlib.sec', 'no_num_sec_regex')
     ctx.attempt(_inc, 'RX-LANG', 'no_num_sec_regex', F.SEC_WORD, nn, "the word 'Section' / abbreviations / symbol")
     ctx.attempt(_pretty, tw, ms)
@@ -128,6 +132,32 @@ def _pretty(ctx, tw, ms):
                       f"`{norm(partial[0])[:70]}` compares only part of the Twp/Rge: consecutive tracts with the same township "
                       f"but another range (or vice versa) are printed under one header and read back with the wrong Twp/Rge",
                       key="ORDER|pretty_desc|partial-key", where=common.loc(pd, partial[0]))
+    # a finished run is flushed under ITS key: (key, group) is appended before
+    # either name is re-assigned in the same block
+    for c in walk_local(pd.node):
+        if isinstance(c, ast.Call) and isinstance(c.func, ast.Attribute) and c.func.attr == 'append' and c.args \
+                and isinstance(c.args[0], ast.Tuple) and all(isinstance(e, ast.Name) for e in c.args[0].elts):
+            st_ = enclosing_stmt(c)
+            blk_ = None
+            for fld in ('body', 'orelse'):
+                b_ = getattr(st_._parent, fld, None)
+                if isinstance(b_, list) and st_ in b_:
+                    blk_ = b_
+            in_loop = False
+            p_ = st_._parent
+            while p_ is not None and p_ is not pd.node:
+                if isinstance(p_, (ast.For, ast.While)):
+                    in_loop = True
+                p_ = getattr(p_, '_parent', None)
+            if blk_ is None or not in_loop:
+                continue
+            names_ = {e.id for e in c.args[0].elts}
+            early = [x for x in blk_[:blk_.index(st_)] if isinstance(x, ast.Assign)
+                     and any(isinstance(t, ast.Name) and t.id in names_ for t in x.targets)]
+            ctx.check(not early, 'ORDER', f"pretty_desc flushes `{norm(c.args[0])}` before starting the next run",
+                      detail_bad=f"`{norm(early[0]) if early else ''}` runs before `{norm(c)}` in the same block: the finished group is "
+                                 f"stored under the NEXT group's Twp/Rge, so every run is printed under the wrong header",
+                      key="ORDER|pretty_desc|flush-before-reset", where=common.loc(pd, st_))
     if keyed:
         ctx.violation('ORDER', 'pretty_desc groups consecutive runs of a Twp/Rge, in list order',
                       f"`{norm(keyed[0])[:60]}`: tracts are regrouped by Twp/Rge key, so a Twp/Rge that recurs "
@@ -155,6 +185,29 @@ def _deduce_on_preprocessed(ctx):
                 f"`{norm(c)}` looks at the text as given, before PLSSPreprocessor ran: a Twp/Rge that needs the default "
                 f"N/S or E/W (or the OCR scrub) is not seen and the whole description becomes one copy_all tract",
                 key="ORDER|PLSSParser.__init__|deduce-before-preprocess", where=common.loc(pi, c))
+
+
+def _in_between(ctx):
+    """`sec_twprge_in_between` decides that a Twp/Rge merely continues the
+    section phrase before it ("Section 4 of T154N-R97W").  Its connector group
+    must accept the documented connectors and must NOT accept a word that is
+    a description by itself (ALL): "Sec 14: ALL" followed by the next Twp/Rge
+    on a new line is two tracts, and pretty_desc writes exactly that."""
+    rv = ctx.fold.get('rgxlib.context_checkers', 'sec_twprge_in_between')
+    L = common.lang(ctx, rv)
+    for conn in ('of', 'in', ',', 'all of', 'all in', 'all within', 'lying within', 'that lies in'):
+        s_ = f"Section 4 {conn} T154N-R97W"
+        ctx.check(L.search(s_), 'RX-LANG', f"sec_twprge_in_between reads {conn!r} as a continuation",
+                  detail_bad=f"{s_!r} is no longer recognised: the Twp/Rge after the section phrase starts a new (wrong) tract",
+                  key=f"RX-LANG|sec_twprge_in_between|{conn}")
+    for word in ('ALL', 'all', 'All'):
+        for sep in (' ', '\n', ': '):
+            s_ = f"Sec 14{':' if sep != ': ' else ''}{sep if sep == ': ' else ' '}{word}{sep if sep != ': ' else ' '}T155N-R97W"
+            hit = [sp for sp in L.search_spans(s_) if sp[1] > sp[0]]
+            ctx.check(not hit, 'RX-LANG-NEG', f"sec_twprge_in_between does not take the description {word!r} for a connector ({s_!r})",
+                      detail_bad=f"{s_!r} is matched as 'section <connector> Twp/Rge': the Twp/Rge that follows a tract whose whole "
+                                 f"description is {word!r} is ignored and its sections go to the previous township",
+                      key=f"RX-LANG-NEG|sec_twprge_in_between|{word}|{sep!r}")
 
 
 def emitted_trs_accepted(ctx, rule='PAIR'):
